@@ -24,13 +24,14 @@ func C04(c *core.Ctx) {
 		"properties of every non-pointer kind (formats, typed additionalProperties maps, arrays, booleans), objects inside arrays (depth 1 and 2), behind a definition reference, anyOf branch types, " +
 		"objects with additionalProperties, and a name listed in `required` that has no property. For every struct the emitted Unmarshal methods must contain, before the typed decode and guarded by " +
 		"raw != nil, a presence test on the raw map for exactly the raw name of each required, non-defaulted property — and for no other key (A-NOEXTRA). " +
-		"Not decided: required lists merged by allOf (the merge is modelled, but allOf families are not part of this check)."
+		"allOf families (2..4 branches, overlapping properties, a constraint-only branch adding `required`, a referenced branch) are included on the modelled mergo merge."
 	rules := ruleSet("A-REQ", "A-NOEXTRA", "A-TAG")
 	cfg := gen.DefaultConfig()
 	var ms []member
 	ms = append(ms, requiredMembers(c.Tier, cfg)...)
 	ms = append(ms, anyOfMembers(c.Tier, cfg)...)
 	ms = append(ms, addPropsMembers(c.Tier, cfg)...)
+	ms = append(ms, allOfMembers(cfg)...)
 	for _, mb := range ms {
 		runMember(c, mb, rules, 64, checkRoot)
 	}
